@@ -18,7 +18,7 @@ RULE = ('(program) a generated static container (Frame/FrameHE/Series/SeriesHE/I
         'after every call all snapshots are unchanged and every array reachable from the result is read-only (flag and write attempt). '
         '(caller) 40 constructors/assigners fed writeable arrays that are overwritten afterwards. '
         'non-trivial = >=1 call succeeded on a non-empty container and >=1 result array visited; or the input array was writeable')
-ASSUMPTIONS = ['a writeable private base array that is not reachable through the public routes walked here is not a violation',
+ASSUMPTIONS = ['a reduction over a Series whose elements are tuples is not judged (NumPy arithmetic on the element objects)', 'a writeable private base array that is not reachable through the public routes walked here is not a violation',
                'np.ma.MaskedArray results (masked_array) and plain Python scalars are not walked']
 
 KINDS = gen.KINDS_MID
@@ -175,7 +175,12 @@ def check_program(case):
             continue
         ok_calls += 1 if (getattr(tgt, 'size', None) or len(tgt)) else 0
         # (2) every array handed out is read-only
-        if name != 'masked_array':
+        # (a reduction of a Series yields an element; a bare ndarray there only arises when the *elements* are
+        # themselves sequences (tuples put there by an earlier apply) and NumPy does arithmetic on them: that array
+        # is NumPy's own intermediate over caller-chosen element objects, outside what the containers hand out)
+        seq_elements = name == 'reduce' and isinstance(tgt, sf.Series) and isinstance(r, np.ndarray) and tgt.dtype == object \
+            and any(isinstance(x, (tuple, list)) for x in tgt.values)
+        if name != 'masked_array' and not seq_elements:
             v = lib(assert_frozen, r, 'result of %s on %s' % (opcase, type(tgt).__name__))
             if isinstance(v, Raised):
                 if isinstance(v.exc, Failure):
@@ -326,7 +331,7 @@ def caller_cases(draw):
     if lk == 'dt':
         # a datetime64 label array; for the typed routes the class unit equals the array unit two times out of three
         unit = draw(st.sampled_from(sorted(_TYPED)))
-        cls_unit = unit if draw(st.integers(0, 2)) else draw(st.sampled_from(sorted(_TYPED)))
+        cls_unit = unit if draw(st.integers(0, 2)) < 2 else draw(st.sampled_from(sorted(_TYPED)))
         offs = draw(st.lists(st.integers(0, 60), min_size=n, max_size=n, unique=True))
         ia = (np.datetime64('2001-01-01', unit) + np.array(offs).astype('m8[%s]' % unit)).astype('M8[%s]' % unit)
     else:
@@ -504,10 +509,10 @@ def extra_evidence(tier):
 
 
 SUBS = [
-    Sub('program', program_cases(), check_program, quick=2000, thorough=64000, tag=tag,
+    Sub('program', program_cases(), check_program, quick=8000, thorough=64000, tag=tag,
         rule='snapshots unchanged after every call; every reachable result array read-only'),
-    Sub('caller', caller_cases(), check_caller, quick=1500, thorough=24000,
+    Sub('caller', caller_cases(), check_caller, quick=6000, thorough=24000,
         rule='constructors/assigners fed writeable arrays later overwritten by the caller'),
-    Sub('caller_go', go_cases(), check_go, quick=600, thorough=12000,
+    Sub('caller_go', go_cases(), check_go, quick=2400, thorough=12000,
         rule='static containers built from caller-held grow-only containers (IndexGO, IndexHierarchyGO, FrameGO) that the caller grows afterwards'),
 ]
